@@ -42,8 +42,17 @@ Exprs == {F(s, c) : s \in Srcs, c \in Chains1} \cup {F(X, c) : c \in Chains2} \c
          \cup {F(S("lit"), <<Fl("append", <<X>>)>>), F(S("lit"), <<Fl("replace", <<S("i"), X>>)>>), F(S("lit"), <<Fl("prepend", <<X>>), Fl("upcase", <<>>)>>),
                P(TStr(<<S("pre"), P(X), S("post")>>, "\"")), F(TStr(<<P(X)>>, "'"), <<Fl("upcase", <<>>)>>),
                Tern(F(X, <<>>), V("n"), V("e"), <<Fl("upcase", <<>>)>>, <<Fl("append", <<X>>)>>)}
+         \* an author's literal on one side of an inline if, data on the other; data appended after either
+         \cup {Tern(F(S("lit"), <<>>), c, a, <<>>, <<>>) : c \in {V("n"), V("nosuch")}, a \in {X, V("q"), V("amp")}}
+         \cup {Tern(F(a, <<>>), c, S("lit"), <<>>, <<>>) : c \in {V("n"), V("nosuch")}, a \in {X, V("q")}}
+         \cup {Tern(F(S("lit"), <<>>), c, NoAltE, <<>>, <<Fl("append", <<X>>)>>) : c \in {V("n"), V("nosuch")}}
+         \* every filter that takes an argument applied to an author's literal (safe text) with data as the argument
+         \cup {F(S("l-i-t"), <<Fl(f, <<a>>)>>) : f \in F1, a \in {X, V("q")}}
+         \cup {F(S("l-i-t"), <<Fl(f, <<S("-"), a>>)>>) : f \in F1 \cap {"replace", "replace_first", "replace_last"}, a \in {X, V("q"), V("amp")}}
+         \cup {F(S("l-i-t"), <<Fl(f, <<S(""), a>>)>>) : f \in F1 \cap {"replace", "replace_first", "replace_last"}, a \in {X}}
 
 Tags == {Capture("c", <<NText("cap:"), NOut(P(X))>>), NOut(P(V("c"))), NOut(F(V("c"), <<Fl("append", <<X>>)>>)), NOut(F(V("c"), <<Fl("upcase", <<>>)>>)),
+         NOut(F(V("c"), <<Fl("replace", <<S(":"), X>>)>>)), NOut(F(V("c"), <<Fl("replace_first", <<S(":"), X>>)>>)), NOut(F(V("c"), <<Fl("replace_last", <<S(":"), X>>)>>)),
          Assign("c", F(X, <<Fl("append", <<S("!")>>)>>)), Assign("c", F(X, <<Fl("escape", <<>>)>>)),
          Include(S("p"), "none", NilE, "", <<WArg("v", X)>>), RenderT(S("p"), "with", X, "v", <<>>), Include(S("p"), "for", V("arr"), "v", <<>>),
          Macro("m", <<Param("a")>>, <<NText("m:"), NOut(P(V("a")))>>), Call("m", <<X>>, <<>>),
